@@ -9,6 +9,7 @@ A check module built on this file provides
     run_case(case, res)        -> raises common.Violation on the first refuting observation
     shrinkable(case)           -> (list_of_ops, rebuild(list_of_ops) -> case)   (optional)
 """
+import os
 import time
 import traceback
 
@@ -31,6 +32,17 @@ def run_guarded(mod, case, res):
     except instr.StepBudgetExceeded:
         # a budget overrun that the check did not translate itself
         return Violation("step-budget-exceeded", "operation did not finish within its statement budget", {})
+    except Exception as e:
+        # an exception the harness did not anticipate: if it came out of the library's code (some frame of the traceback
+        # is a file of the repository) the operation the harness was performing failed, which is an observation about
+        # the library; otherwise it is a bug of the harness and crashes the shard
+        frames = [f for f in traceback.extract_tb(e.__traceback__) if f.filename.startswith(common.REPO + os.sep)]
+        if not frames:
+            raise
+        f = frames[-1]
+        where = f"{os.path.relpath(f.filename, common.REPO)}:{f.name}"
+        return Violation("unexpected-exception", f"{type(e).__name__}: {str(e)[:160]} came out of {where} during a step the "
+                         f"reference performs without error", {"traceback": traceback.format_exception(e)[-6:]})
 
 
 def shrink(mod, case, mechanism, max_runs=400, max_time=20.0):
